@@ -121,6 +121,17 @@ def same_direction(ctx, name, w, u, C, growth=1.0):
     return c
 
 
+def is_isometry(ctx, name, T, C):
+    """"the isometry built from ...": the stored (row) matrix M satisfies M J M^T = J, with
+    the rounding of a matrix of size C = cosh(distance moved)"""
+    M = np.asarray(T.matrix, dtype=float)
+    m = M.shape[-1]
+    Jm = np.diag([-1.0] + [1.0] * (m - 1))
+    Cm = np.max(np.asarray(C, dtype=float)) if np.size(C) else 1.0
+    ctx.small(name + " preserves the Minkowski form",
+              (M @ Jm @ np.swapaxes(M, -1, -2) - Jm) / (1e-9 * Cm * Cm), 1.0)
+
+
 def proj_points(K, scales, shape, n):
     K = np.array(K, dtype=float).reshape(tuple(shape) + (n,))
     S = np.array(scales, dtype=float).reshape(tuple(shape))
@@ -174,6 +185,7 @@ def body_origin(case, ctx):
     # the first row of the stored (row) matrix is the image of e0
     M = np.asarray(T.matrix, dtype=float)
     same_point(ctx, "first row of the matrix is p", M[..., 0, :], want)
+    is_isometry(ctx, "Point.origin_to()", T, C_of(want))
 
 
 def nt_origin(labels):
@@ -201,6 +213,7 @@ def body_tv_origin(case, ctx):
     if any(c != 0.0 for c in case["tv"]["ncomp"]):
         ctx.label("non-tangential-input")
     T = tv.origin_to(**_fo_kwargs(case["fo"]))
+    is_isometry(ctx, "TangentVector.origin_to()", T, C_of(P))
     base = TangentVector.get_base_tangent(n)
     img = T @ base
     ctx.check(isinstance(img, TangentVector), "image is a TangentVector",
@@ -213,9 +226,11 @@ def body_tv_origin(case, ctx):
     same_direction(ctx, "tv.vector is the tangential part of the input", tv.vector, U,
                    C_of(P) * (1.0 + np.abs(np.array(case["tv"]["ncomp"]).reshape(shape)) /
                               np.array(case["tv"]["lens"]).reshape(shape)))
+    # (relative to the size of the stored vector itself, which queries may rescale)
     ctx.small("tv.vector is Minkowski-orthogonal to the basepoint",
               mink(np.asarray(tv.vector, dtype=float), P) /
-              (1e-9 * C_of(P) ** 2 * np.linalg.norm(V, axis=-1)), 1.0)
+              (1e-9 * C_of(P) ** 2 * np.linalg.norm(np.asarray(tv.vector, dtype=float),
+                                                    axis=-1)), 1.0)
 
 
 def handed_point(X):
@@ -235,6 +250,7 @@ def body_isometry_to(case, ctx):
     T = tv1.isometry_to(tv2, **_fo_kwargs(case["fo"]))
     img = T @ tv1
     g = C_of(P1) * C_of(P2)          # the map is a product of two frames
+    is_isometry(ctx, "isometry_to()", T, g)
     same_point(ctx, "isometry_to: basepoint carried", img.point, P2, growth=g / C_of(P2))
     same_direction(ctx, "isometry_to: direction carried", geometric(img.vector, img.point),
                    U2, g)
